@@ -14,7 +14,7 @@ run_one() { # id patch props...
   scratch=$(mktemp -d /tmp/govc-scratch.XXXXXX)
   out=$(mktemp -d /tmp/govc-out.XXXXXX)
   git -C /repo archive HEAD | tar -x -C "$scratch"
-  cp "$V/known_findings.json" "$out/"; cp -r "$V/known" "$out/known"
+  cp "$V/known_findings.json" "$out/"; cp -r "$V/known" "$V/bounded" "$out/"
   if ! (cd "$scratch" && git apply "$patch" 2>/dev/null); then echo "$id PATCH-DOES-NOT-APPLY"; rm -rf "$scratch" "$out"; return; fi
   for p in "$@"; do
     res=$(timeout 900 "$V/bin/govc" check --property "$p" --tier quick --repo "$scratch" --verif "$out" 2>&1); rc=$?
